@@ -94,7 +94,7 @@ def mkParams (sentinel : Content) (input output : Path) (lua : List Nat) (univ :
       | none => false }
 
 def regionName : Region → String
-  | .F10 => "F10" | .F11b => "F11b" | .F12 => "F12" | .F13 => "F13" | .E => "E" | .X => "X"
+  | .F12 => "F12" | .F13 => "F13" | .E => "E" | .X => "X"
 
 def insertSorted (e : Path × Content) : List (Path × Content) → List (Path × Content)
   | [] => [e]
@@ -188,9 +188,11 @@ def handle (op : String) (args : List String) : String :=
     | some req => runReq req
     | none => "bad-sexp"
   | "genloop" =>
-    -- `c10.genloop total pending d1 d2 …` : does the loop's counter logic exit within these passes?
+    -- `c10.genloop total acc pending d1 d2 …` : how does the loop's counter logic end within these passes?
     match args.mapM String.toNat? with
-    | some (total :: pending :: ds) => toString (genLoop total pending ds)
+    | some (total :: acc :: pending :: ds) =>
+      (match genLoop total acc pending ds with
+        | .exits => "exits" | .errors => "errors" | .running => "running")
     | _ => "bad-request"
   | "h10" =>
     -- the hypothesis of `worker_refines_fresh_partial` alone: `true` / `false` (same request as `run`;
